@@ -81,7 +81,11 @@ def run_case(case, ctx):
         ctx.count('integer_typed_step_ratio_cases')
         rho_given = {'int': int(rho), 'np_int64': np.int64(rho), 'np_int32': np.int32(rho), 'zero_d_int': np.array(int(rho))}[rt]
     try:
-        rich = Richardson(step_ratio=rho_given, step=spacing, order=order, num_terms=T)
+        if case['seed'] % 5 == 3:
+            rich = Richardson(rho_given, spacing, order, T)       # the documented signature, positionally
+            ctx.count('constructor_arguments_given_positionally')
+        else:
+            rich = Richardson(step_ratio=rho_given, step=spacing, order=order, num_terms=T)
         if case['seed'] % 2:
             # history: the same extrapolator has already served a sequence of another length (shorter than
             # num_terms + 1 in half of the cases); nothing of that may survive into the call that is judged
